@@ -15,14 +15,24 @@ Section Witnesses.
   Lemma Constant_float v x : @Constant_membership _ NF v x = v.
   Proof. reflexivity. Qed.
 
-  (* SShape: start and end ADJACENT doubles whose sum rounds up: the midpoint 0.5*(s+e) evaluates to e, so x = e takes
-     the lower quadratic branch 2*((x-s)/(e-s))^2 = 2: membership 2*h instead of h *)
-  Lemma SShape_range_witness :
-    @SShape_membership _ NF 0x1.0000000000001p+0 0x1.0000000000002p+0 1 0x1.0000000000002p+0 = 2%float.
+  (* SShape / PiShape: after the repair of /repo (commit "fix: SShape membership": the lower quadratic branch is now
+     guarded by `(x <= 0.5*(s+e)) & (x < e)`) neither proved nor refuted — no range violation in a search over 60 000
+     parameter sets incl. adjacent-double widths.  The REPAIRED defect is documented on an explicit copy of the pre-fix
+     kernel: start and end adjacent doubles whose sum rounds up, so that 0.5*(s+e) evaluates to e and x = e took the
+     lower branch 2*((x-s)/(e-s))^2 = 2: membership 2*h instead of h (a gross error, not an ulp). *)
+  Definition SShape_membership_pinned {T : Type} {N : Num T} (p_start p_end p_height : T) (v_x : T) : T :=
+    let v_s := p_start in
+    let v_e := p_end in
+    let v_s_shape := (where_ (leb v_x p_start) (lit 0 0) (where_ (leb v_x (mul (lit 1 (-1)) (add v_s v_e))) (mul (lit 2 0) (square (div (sub v_x v_s) (sub v_e v_s)))) (where_ (ltb v_x v_e) (sub (lit 1 0) (mul (lit 2 0) (square (div (sub v_x v_e) (sub v_e v_s))))) (lit 1 0)))) in
+    mul (mul p_height (where_ (isnan v_x) nan (lit 1 0))) v_s_shape.
+  Lemma SShape_pinned_range_witness :
+    @SShape_membership_pinned _ NF 0x1.0000000000001p+0 0x1.0000000000002p+0 1 0x1.0000000000002p+0 = 2%float.
   Proof. vm_compute. reflexivity. Qed.
-  Lemma PiShape_range_witness :
-    @PiShape_membership _ NF 0x1.0000000000001p+0 0x1.0000000000002p+0 2 3 1 0x1.0000000000002p+0 = 2%float.
-  Proof. vm_compute. reflexivity. Qed.
+  (* the repaired kernel answers h there *)
+  Lemma SShape_fixed_at_witness :
+    @SShape_membership _ NF 0x1.0000000000001p+0 0x1.0000000000002p+0 1 0x1.0000000000002p+0 = 1%float /\
+    @PiShape_membership _ NF 0x1.0000000000001p+0 0x1.0000000000002p+0 2 3 1 0x1.0000000000002p+0 = 1%float.
+  Proof. split; vm_compute; reflexivity. Qed.
 
   (* Concave(inflection -2, end 0.2), x the double below 0.2: (e - i) / ((2e - i) - x) = 2.2 / 2.1999999999999997 > 1 *)
   Lemma Concave_range_witness :
